@@ -660,3 +660,51 @@ CONTRACTS.append(Contract(
                    fghost_havoc={"Y": ("object", lambda cur, c, name: MD.SymPairList(name, c))},
                    invariant=_merge_inv,
                    decreases=lambda e: mk(e.it0__.seq.n - as_z3_int(e.it0__.pos)))}))
+
+
+
+# ---- native replay for the unbounded contracts (concrete sets; the same statements evaluated on the real code) ----------------
+def _native_sets(g, v):
+    from ppci.utils.integer_set import IntegerSet
+    a = IntegerSet(*[tuple(r) for r in v.get("a", [])])
+    b = IntegerSet(*[tuple(r) for r in v.get("b", [])])
+    return {"args": [a, b], "env": {"native": True, "na": list(a.ranges), "nb": list(b.ranges), "x0": v["x0"], "A": None, "B": None}}
+
+
+def _native_samples(g, rnd):
+    out = []
+    for _ in range(200):
+        def mk(k):
+            rs, cur = [], rnd.randrange(-4, 4)
+            for _ in range(k):
+                lo = cur + rnd.choice([2, 2, 3, 6])
+                hi = lo + rnd.choice([0, 0, 1, 5, 9])
+                rs.append([lo, hi])
+                cur = hi
+            return rs
+        a, b = mk(rnd.randrange(0, 7)), mk(rnd.randrange(0, 7))
+        pts = [p for r in a + b for p in (r[0], r[1], r[0] - 1, r[1] + 1)] or [0]
+        out.append({"a": a, "b": b, "x0": rnd.choice(pts)})
+    return out
+
+
+def _native_post(op):
+    def post(e):
+        r = list(e.result.ranges)
+        ina = any(lo <= e.x0 <= hi for lo, hi in e.na)
+        inb = any(lo <= e.x0 <= hi for lo, hi in e.nb)
+        want = {"intersection": ina and inb, "difference": ina and not inb, "union": ina or inb, "symmetric_difference": ina != inb}[op]
+        canon = all(lo <= hi for lo, hi in r) and all(r[i][1] + 1 < r[i + 1][0] for i in range(len(r) - 1))
+        return [("result canonical", canon), ("x0 in result <=> set-algebra combination of the operands", any(lo <= e.x0 <= hi for lo, hi in r) == want)]
+    return post
+
+
+for _ct in CONTRACTS:
+    for _op in ("intersection", "difference", "union", "symmetric_difference"):
+        if _ct.label.startswith("%s:IntegerSet.%s (operands of any length" % (M, _op)):
+            _sym_post = _ct.ensures
+            _ct.ensures = (lambda sp, npost: lambda e: npost(e) if e.get("native") else sp(e))(_sym_post, _native_post(_op))
+            _sym_pre = _ct.requires
+            _ct.requires = (lambda sp: lambda e: [] if e.get("native") else sp(e))(_sym_pre)
+            _ct.replay_args = _native_sets
+            _ct.sample_inputs = _native_samples
